@@ -38,6 +38,12 @@ the failure key names the witness CLASS:
         (<queries>: "time-or-listing-query" = queries that read times, i.e. fill the memo, or that handed links down; others by name)
   (group: listing | times | acquisition_indices | to_stim | copy; "listing" as a query name = a query that handed links down)
 
+Seed stability: the fine-grained keys above are only used for failures that the DETERMINISTIC families (K, T, X) show (and for failures of
+the seeded-random families R / L that have the same fine key as one of those in the same run).  A failure that only the random families
+show is reported as  C03:<component>:<family>:random-family  with component in {times, duration, listing, copy, acquisition_indices,
+to_stim, plot, raises, override} and family in {stale-memo, differs-with-fresh-memos, changes-without-mutation,
+depends-on-earlier-queries, not-restored, not-restored-after-exception}; its fine class is in witness.fine_class / observed.fine_class.
+
 Per-input reporting: the deterministic families (K corpus, T templates, X exhaustive: the same inputs in every run of a tier, whatever
 the seed; they run before the seeded-random families) report EVERY failing input, not only one witness per class: each failure record
 carries "instances": {"complete", "count", "fps"} with fingerprint = sha1(canonical JSON of {program, history as enumerated, key})[:12],
@@ -1072,7 +1078,8 @@ def classify(program, steps, finding, budget):
         # class: the queries the difference needs, and the last mutation before the differing report (other mutations: witness, not class)
         # queries that read times (they fill the memo) or that handed links down / replaced link objects ("listing") are one class of
         # earlier query; any other query the difference needs keeps its name
-        timeq = {READ_NAME["listed_times"], READ_NAME["held_times"], READ_NAME["plot_nc"], "duration", "listing"}
+        timeq = {READ_NAME["listed_times"], READ_NAME["held_times"], READ_NAME["plot_nc"], READ_NAME["plot_nc_bad"], "duration", "listing",
+                 READ_NAME["plot"], READ_NAME["plot_bad"]}      # (compact drawings clear the memos: a side effect on the memo as well)
         names = {("time-or-listing-query" if nm(st) in timeq else nm(st)) for st in smin[:j] if "o" in st}
         names = sorted(names)
         muts = [MUT_NAME[st["m"]] for st in smin[:j] if "m" in st and st["m"] != "make_sub"]
@@ -1135,6 +1142,15 @@ INSTANCE_CAP = 20000
 DETERMINISTIC_FAMILIES = ("K corpus", "T templates", "X exhaustive")
 
 
+def coarse_key(key):
+    """C03:<component>:<family>:random-family -- the class of a failure that only the seeded-random families showed: it does not embed the
+    (query > mutation) combination, which goes into the witness / observed fields instead (a new seed must not create a new key)"""
+    parts = key.split(":")
+    if len(parts) < 3 or parts[1] == "probe":
+        return key
+    return f"{PROP}:{parts[1].split('(')[0]}:{parts[2]}:random-family"
+
+
 def fingerprint(witness):
     """identity of ONE failing input: first 12 hex characters of the sha1 of its canonical JSON (program, history as enumerated, key)"""
     return hashlib.sha1(json.dumps(witness, sort_keys=True, default=str).encode()).hexdigest()[:12]
@@ -1151,7 +1167,8 @@ class Stats:
         self.histories = 0
         self.runs = 0
         self.replays = 0
-        self.failures = {}
+        self.failures = {}        # found by the deterministic families (fine-grained keys)
+        self.rfailures = {}       # found by the seeded-random families (fine-grained keys; folded or made coarse at the end)
         self.skipped = {}
         self.hashes = set()
         self.samples = []
@@ -1166,12 +1183,21 @@ class Stats:
     def skip(self, reason):
         self.skipped[reason] = self.skipped.get(reason, 0) + 1
 
-    def fail(self, key, rec):
+    def fail(self, key, rec, rnd=False):
+        target = self.rfailures if rnd else self.failures
         rec["_size"] = witness_size(rec["witness"])
-        old = self.failures.get(key)
+        old = target.get(key)
         if old is None or (rec["_size"], json.dumps(rec["witness"], sort_keys=True, default=str)) < \
                 (old["_size"], json.dumps(old["witness"], sort_keys=True, default=str)):
-            self.failures[key] = rec
+            target[key] = rec
+
+    def all_failures(self):
+        out = dict(self.rfailures)
+        for k, f in self.failures.items():
+            if k not in out or (f["_size"], json.dumps(f["witness"], sort_keys=True, default=str)) <= \
+                    (out[k]["_size"], json.dumps(out[k]["witness"], sort_keys=True, default=str)):
+                out[k] = f
+        return out
 
     def merge(self, o):
         for k in self.n:
@@ -1193,6 +1219,8 @@ class Stats:
                 self.capped.add(k)
         for k, f in o.failures.items():
             self.fail(k, f)
+        for k, f in o.rfailures.items():
+            self.fail(k, f, rnd=True)
         for k, v in o.skipped.items():
             self.skipped[k] = self.skipped.get(k, 0) + v
         self.hashes |= o.hashes
@@ -1315,13 +1343,13 @@ def record(program, history, steps, findings, stats, verbose, max_classify, rec,
         key, smin, rec0 = classify(program, steps, fd, budget)
         hist_min = strip(smin)
         witness = {"program": program, "history": hist_min, "final_report_steps_needed": [step_name(st, False) for st in smin if st.get("final")]}
-        old = stats.failures.get(key)
+        old = (stats.failures if deterministic else stats.rfailures).get(key)
         size = witness_size(witness)
         if old is None or verbose or (size, json.dumps(witness, sort_keys=True, default=str)) < (old["_size"], json.dumps(old["witness"], sort_keys=True, default=str)):
             observed, required = detail_of(program, smin, fd, budget, rec0)   # on the minimal history, so that it belongs to the recorded witness
             stats.fail(key, {"key": key, "clause": CLAUSE[fd["check"]], "function": FUNCTION[fd["check"]], "witness": witness,
                              "observed": observed, "required": required,
-                             "replay_args": {"program": program, "history": hist_min, "key": key, "found_in": history}})
+                             "replay_args": {"program": program, "history": hist_min, "key": key, "found_in": history}}, rnd=not deterministic)
             if verbose:
                 print("  FINDING", key)
                 print("     minimal steps:", [step_name(st, False) for st in smin])
@@ -1602,10 +1630,19 @@ TEMPLATES = [
 ]
 
 
-def template_histories(program):
+# thorough tier only (the quick tier's deterministic inputs, and with them its fingerprints, stay as they are)
+THOROUGH_TEMPLATES = [
+    [O("held_times"), O("plot_bad")],
+    [O("held_times"), O("operations"), O("plot_bad")],
+    [M("apply_modifiers"), O("plot_bad"), M("flatten")],
+    [O("operations"), M("apply_modifiers")],
+]
+
+
+def template_histories(program, thorough=False):
     out = []
     n = len(program.get("items", []))
-    for t in TEMPLATES:
+    for t in TEMPLATES + (THOROUGH_TEMPLATES if thorough else []):
         h, k = [], n
         for st in t:
             st = json.loads(json.dumps(st))
@@ -1617,11 +1654,12 @@ def template_histories(program):
     return out
 
 
-def load_corpus():
+def load_corpus(thorough=False):
     path = os.path.join(os.path.dirname(os.path.abspath(__file__)), "c03_corpus.json")
     try:
         with open(path) as fh:
-            return json.load(fh)["inputs"]
+            d = json.load(fh)
+            return d["inputs"] + (d.get("thorough_inputs", []) if thorough else [])
     except (OSError, ValueError, KeyError):
         return []
 
@@ -1633,7 +1671,7 @@ def make_jobs(tier, seed):
     cores = core_programs()
     jobs, summary = [], []
     # K: corpus of inputs that showed a witness class before (run first)
-    corpus = load_corpus()
+    corpus = load_corpus(thorough)
     kj = [{"family": "K corpus", "program": c["program"], "mutations": None, "histories": [c["history"]]} for c in corpus]
     summary.append(f"K corpus: {len(kj)} recorded (program, history) inputs, one per witness class seen during development (bounded/c03_corpus.json)")
     # X: exhaustive histories over the reduced alphabet on the core programs
@@ -1646,9 +1684,9 @@ def make_jobs(tier, seed):
     # T: templates on small programs
     sp = small_programs()
     tp = sp if thorough else sp[::3]        # independent of the seed: the deterministic families are the same in every run of a tier
-    tj = [{"family": "T templates", "program": p, "mutations": None, "histories": template_histories(p)} for p in tp + cores + library_programs(thorough)]
+    tj = [{"family": "T templates", "program": p, "mutations": None, "histories": template_histories(p, thorough)} for p in tp + cores + library_programs(thorough)]
     jobs += tj
-    summary.append(f"T templates: {len(TEMPLATES)} named flows on {len(tj)} programs ({'all' if thorough else 'every third of the'} {len(sp)} programs of <= 2 top-level "
+    summary.append(f"T templates: {len(TEMPLATES) + (len(THOROUGH_TEMPLATES) if thorough else 0)} named flows on {len(tj)} programs ({'all' if thorough else 'every third of the'} {len(sp)} programs of <= 2 top-level "
                    f"items over a reduced alphabet x every relation and 3-item programs with a sub-circuit x repetitions 1..3; core programs; library "
                    f"repetition-code circuits)")
     # R: random programs x random histories
@@ -1840,6 +1878,28 @@ def main(argv=None):
                                           if lbad else "all reported times agree with the relation equations"), "ok": True})
     except Exception as e:  # noqa
         res.probes.append({"assumption": f"informational: library witness could not be evaluated ({type(e).__name__})", "ok": True})
+    # failures that only the seeded-random families showed: folded into the fine-grained key if the deterministic families produced the
+    # same one in this run, else reported under the coarse, seed-stable key (the fine class goes into the witness / observed fields)
+    coarse = {}
+    for fk in sorted(total.rfailures):
+        f = total.rfailures[fk]
+        if fk in total.failures:
+            total.fail(fk, f)
+            continue
+        ck = coarse_key(fk)
+        if ck == fk:
+            total.fail(fk, f)
+            continue
+        c = dict(f, key=ck, witness=dict(f["witness"], fine_class=fk),
+                 observed={"fine_class": fk, "detail": f["observed"]}, replay_args=dict(f["replay_args"], key=ck, fine_key=fk))
+        c["_size"] = witness_size(c["witness"])
+        old = coarse.get(ck)
+        classes = sorted(set((old or {}).get("fine_classes_seen_in_this_run", [])) | {fk})
+        if old is None or (c["_size"], json.dumps(c["witness"], sort_keys=True, default=str)) < (old["_size"], json.dumps(old["witness"], sort_keys=True, default=str)):
+            coarse[ck] = c
+        coarse[ck]["fine_classes_seen_in_this_run"] = classes
+    for ck, c in coarse.items():
+        total.failures[ck] = c
     # every failing input of the deterministic families, one by one (fingerprints in the failure records, witnesses in a side file)
     harness_err = [k for k in total.skipped if k.startswith("harness error")]
     all_reached = total.det_skipped == 0 and not harness_err
@@ -1893,14 +1953,22 @@ def replay(path):
     stats = Stats()
     base.L()
     check_history(program, history, stats, verbose=True, max_classify=50)
-    keys = sorted(stats.failures)
-    print(" failure keys now:", keys)
-    if key not in stats.failures and a.get("found_in"):
+    def hit():
+        now = stats.all_failures()
+        if key in now:
+            return now[key]
+        if key.endswith(":random-family"):      # coarse key: any fine class of that component / family (the recorded one first)
+            for fk in [a.get("fine_key")] + sorted(now):
+                if fk in now and coarse_key(fk) == key:
+                    return now[fk]
+        return None
+    print(" failure keys now:", sorted(stats.all_failures()))
+    if hit() is None and a.get("found_in"):
         print(" not on the minimal history; trying the history it was found in")
         check_history(program, a["found_in"], stats, verbose=True, max_classify=50)
-        print(" failure keys now:", sorted(stats.failures))
-    if key in stats.failures:
-        f = stats.failures[key]
+        print(" failure keys now:", sorted(stats.all_failures()))
+    if hit() is not None:
+        f = hit()
         print(" observed:", json.dumps(f["observed"], default=str))
         print(" required:", json.dumps(f["required"], default=str))
         print(f"VIOLATION property={PROP} replay={path}")
